@@ -105,8 +105,8 @@ def _input_groups(rin, rout, V):
 
     load_case writes every recorded input through its connection into the source (System.set_val on a connected
     input sets the source) and then the recorded outputs; all these writes can only be satisfied together when they
-    agree on every element of the source.  `consistent`: every element of the source gets one value (compared in SI
-    units, 8 ulp) from all recorded inputs that read it and from the recorded source itself; `converts`: some writer
+    agree on every element of the source.  `consistent`: every element of the source gets one value (bitwise when all
+    writers have the same units, else compared in SI units to 4 ulp) from all recorded inputs that read it and from the recorded source itself; `converts`: some writer
     has units different from another one (a value may come back through two conversions).
     A case recorded while a component had not been executed (skipped as irrelevant by the optimizer, or recorded
     before the first run) holds such a stale input; no load can restore it together with its source."""
@@ -136,11 +136,15 @@ def _input_groups(rin, rout, V):
             for j, x in enumerate(np.asarray(rout[src], dtype=float).ravel()):
                 implied.setdefault(j, []).append(x * UNIT_FACTOR[su])
         ok = True
+        conv = len(units) > 1 or su == '?'
+        # same units everywhere: the writers must agree bitwise (an input of a converged cycle is the source value of
+        # the previous sweep, a few ulp off: stale); with conversions, to 4 ulp in SI units
+        tol = 4 * 2.3e-16 if conv else 0.0
         for vals in implied.values():
             v = np.array(vals)
-            if not np.all(np.isfinite(v)) or (v.max() - v.min()) > 8 * 2.3e-16 * max(1e-300, np.abs(v).max()):
+            if not np.all(np.isfinite(v)) or (v.max() - v.min()) > tol * max(1e-300, np.abs(v).max()):
                 ok = False
-        out[src] = (ok, len(units) > 1 or su == '?')
+        out[src] = (ok, conv)
     return out
 
 
